@@ -11,5 +11,5 @@ Step(e) ==
                     /\ (IF e.sched = -2 THEN sched' = 0 ELSE sched' = e.sched)
 TNext == l <= Len(Ev) /\ Step(Ev[l]) /\ l' = l + 1 /\ UNCHANGED tid
 TSpec == TInit /\ [][TNext]_tvars
-Reporter == Report(tid, l, Len(Ev))
+Reporter == TraceReport(tid, l, Len(Ev))
 =============================================================================
